@@ -15,7 +15,8 @@ def T(module, *names, partial=False):
           "Kanzi.Properties.C05_jobs": "Kanzi.C05", "Kanzi.Properties.C12_ans0": "Kanzi.C12",
           "Kanzi.Properties.C01_none": "Kanzi.C01none", "Kanzi.Properties.C03_bound": "Kanzi.C03", "Kanzi.Properties.C19_levels": "Kanzi.C19",
           "Kanzi.Properties.ConstsTie": "Kanzi.ConstsTie", "Kanzi.Properties.BitOpsTie": "Kanzi.BitOpsTie", "Kanzi.Properties.C12_range": "Kanzi.C12", "Kanzi.Properties.C13_rlt": "Kanzi.C13",
-          "Kanzi.Properties.C12_ans1": "Kanzi.C12", "Kanzi.Properties.C12_cm": "Kanzi.C12", "Kanzi.Properties.C13_srt": "Kanzi.C13"}[module]
+          "Kanzi.Properties.C12_ans1": "Kanzi.C12", "Kanzi.Properties.C12_cm": "Kanzi.C12", "Kanzi.Properties.C13_srt": "Kanzi.C13", "Kanzi.Properties.C01_blockgen": "Kanzi.C01gen",
+          "Kanzi.Properties.C19_paths": "Kanzi.C19"}[module]
     return [{"module": module, "name": n if n.startswith("Kanzi.") else ns + "." + n, "partial": partial or n.endswith("_partial")} for n in names]
 
 
@@ -59,6 +60,7 @@ LEVELS = {"name": "levels", "timeout": 7200}
 RANGE = {"name": "range", "kmodel": "range", "timeout": 3600}
 RLT = {"name": "rlt", "kmodel": "rlt", "timeout": 3600}
 ANS1 = {"name": "ans1", "kmodel": "ans1", "timeout": 3600}
+IMAGEGEN = {"name": "imagegen", "kmodel": "imagegen", "timeout": 3600}
 SRT = {"name": "srt", "kmodel": "srt", "timeout": 3600}
 CMPRED = {"name": "cmpred", "kmodel": "cmpred", "timeout": 3600}
 MNONE = "Kanzi.Properties.C01_none"
@@ -84,8 +86,8 @@ PROPS["C01"] = {
                 + T(M13, "C13_sequence", "C13_sequence_mode_byte", "C13_sequence_small") + T(M12, "C12_none")
                 + T(MJOBS, "C05_bwt_chunks_covered", "C05_jobs_partition")
                 + T(MNONE, "C01_codec_NONE", "C01_codec_NONE_task", "C01_codec_NONE_bits", "C01_stream_image_layers", "C01_stream_image_parses", "C01_stream_image_fast", "C01_none_end_to_end") + T(MCT, "io_consts", "kanzi_consts", "consts_nonvacuous") + T(MBO, "writeHeader_layout", "readHeader_layout", "frame_layout", "block_prologue_layout"),
-    "streams": [SW, SR, JOBS, IMAGE, RT, RTBIG],
-    "level_text": "PROOF of the stream layer under assumption H_codec, plus search. Proved for all data, all partitions into Write calls, all job counts on both sides, all size-hint values, all read sizes: Write/Close succeed, the blocks are chunks(B,data), the framed stream parses back to them, and the reader returns exactly data then end-of-stream (C01_roundtrip = C04_writer_blocks + C10_stream_layout + C05_reader_refines_spec); the transform sequence with any pattern of declined stages and both skip-flag layouts round-trips (C13_sequence*); NONE entropy proved (C12_none); for the NONE/NONE codec H_codec is PROVED incl. the copy-block branch and the three checksum widths (C01_codec_NONE) and the whole chain is closed at the byte level: the bytes the Writer model emits, for any partition/jobs/hint, parse back through header, framing and block decode to the data (C01_none_end_to_end), and that byte image is byte-identical to the real Writer's output (image stream). ASSUMED (H_codec) for the other transforms/entropy codecs: decode(encode(block)) = block - searched on the real code (rt/rtbig: every transform and entropy, chains up to 8, all data shapes, block sizes, jobs, hints, headerless).",
+    "streams": [SW, SR, JOBS, IMAGE, IMAGEGEN, RT, RTBIG],
+    "level_text": "PROOF of the stream layer under assumption H_codec, plus search. Proved for all data, all partitions into Write calls, all job counts on both sides, all size-hint values, all read sizes: Write/Close succeed, the blocks are chunks(B,data), the framed stream parses back to them, and the reader returns exactly data then end-of-stream (C01_roundtrip = C04_writer_blocks + C10_stream_layout + C05_reader_refines_spec); the transform sequence with any pattern of declined stages and both skip-flag layouts round-trips (C13_sequence*); NONE entropy proved (C12_none); for the NONE/NONE codec H_codec is PROVED incl. the copy-block branch and the three checksum widths (C01_codec_NONE) and the whole chain is closed at the byte level: the bytes the Writer model emits, for any partition/jobs/hint, parse back through header, framing and block decode to the data (C01_none_end_to_end), and that byte image is byte-identical to the real Writer's output (image stream). The per-block codec is now modelled GENERICALLY (Model.BlockGen: copy-block branch, the skipBlocks entropy test with the real magic-number and first-order-entropy code, mode byte, skip flags in the nibble or the extra byte, length field, checksum, entropy coder, inverse sequence): C01_block_roundtrip reduces H_codec to per-stage and per-entropy-codec laws, and it is discharged with NO remaining hypothesis for every chain of up to 8 transforms over NONE/ZRLT/MTFT/RANK with entropy NONE or ANS0 (C01_codec_small_none, C01_codec_small_ans0, C01_codec_of_header), up to the byte image of the whole stream (C01_gen_end_to_end, C01_gen_end_to_end_ans0 for block sizes <= 128 KiB; above that PARTIAL under the decidable hypothesis that the ANS0 payload fits the reader's frame bound); the imagegen stream compares that image byte for byte with the real Writer and the real Reader's verdict on damaged images. ASSUMED (H_codec) for the other transforms/entropy codecs: decode(encode(block)) = block - searched on the real code (rt/rtbig: every transform and entropy, chains up to 8, all data shapes, block sizes, jobs, hints, headerless).",
     "level_note": BASE_NOTE + "H_codec for 17 transforms and 8 entropy codecs is an assumption covered only by the rt/rtbig search; buffer-size sufficiency of the decoder for chained expanding transforms is searched, not proved.",
     "assumptions": ["H_codec: per-block decode(encode(b)) = b and consumes exactly the encoder's bits, for codecs other than NONE/ZRLT/SBRT/Null"],
 }
